@@ -281,6 +281,21 @@ class Recorder:
         tid = prog["tid"]
         cfg = prog.get("cfg", {})
         buf = []
+        import symmray.abelian_core as _ac
+
+        saved = (_ac._fuseinfo_cache_maxsize, _ac._fuseinfo_cache_maxsectors)
+        if "cache" in cfg:
+            _ac._fuseinfo_cache_maxsize = int(cfg["cache"])
+        if "maxsectors" in cfg:
+            _ac._fuseinfo_cache_maxsectors = int(cfg["maxsectors"])
+        if cfg.get("cache_clear"):
+            _ac._fuseinfos.clear()
+        try:
+            return self._run(prog, regs, tid, cfg, buf)
+        finally:
+            _ac._fuseinfo_cache_maxsize, _ac._fuseinfo_cache_maxsectors = saved
+
+    def _run(self, prog, regs, tid, cfg, buf):
         try:
             buf.append(
                 {"tid": tid, "seq": 0, "op": "init", "args": {"x": 0}, "in": [],
@@ -291,6 +306,13 @@ class Recorder:
             for seq, st in enumerate(prog["steps"], 1):
                 objs = [regs[r] for r in st["in"]]
                 outcome, exc = "ok", ""
+                if st["op"] == "rel":
+                    # relational pseudo-event: nothing is executed, the spec compares registers
+                    buf.append(
+                        {"tid": tid, "seq": seq, "op": "rel", "args": st["args"], "in": st["in"], "out": [],
+                         "entry": "method", "outcome": "ok", "exc": "", "cfg": cfg, "grp": {"x": 0},
+                         "regs": {k: snapshot(v) for k, v in regs.items()}})
+                    continue
                 try:
                     with warnings.catch_warnings():
                         warnings.simplefilter("ignore")
